@@ -122,10 +122,20 @@ Proof. exact (ended_stream_inert rules_validators). Qed.
 Print Assumptions C12_ended_stream_inert.
 (* Non-vacuity under the validator of these statements: ex_rules_validators (proofs/ProviderSvc_proofs.v). *)
 
+(* Counting form of "each decision is delivered at most once": for every digest d and status st, the number
+   of deliveries of (d, st) -- over all channels -- never exceeds the number of decision events (d, st) of the
+   history: k equal decisions justify at most k deliveries. *)
+Theorem C12_deliveries_le_decisions : forall d st evs,
+  (cnt_deliv d st (run rules_validators evs) <= cnt_look d st evs)%nat.
+Proof. exact (deliveries_le_decisions rules_validators). Qed.
+Print Assumptions C12_deliveries_le_decisions.
+
 (* The property checker of the correspondence (check/Check_C12.v) raises no alarm on the model's own
    prediction -- partial: proved for the clause "forwarded-invalid" and for the at-most-once half of
    "fields-differ"; for the clauses double-delivery, stream-ended, leak and decision-dropped the absence of
-   false alarms rests on the runs (no theorem yet). *)
+   false alarms rests on the runs (no theorem yet).  The checker's own bookkeeping now registers an expected
+   delivery at the callback half of a decision and lets a parked or ended stream read nothing, as the machine
+   does (the two counterexamples of the second audit evaluate to no alarm). *)
 Theorem C12_checker_accepts_model_partial : forall i l,
   Check_C12.chk_forwarded_valid (Check_C12_proofs.model_case i l) = true /\
   Check_C12.nodupb (map fst (Check_C12.o_emitted (Check_C12.ob (Check_C12_proofs.model_case i l)))) = true.
